@@ -2,9 +2,11 @@ package connprop
 
 import (
 	"context"
+	"errors"
 	"flag"
 	"fmt"
 	"math/rand"
+	"net"
 	"runtime"
 	"strings"
 	"sync"
@@ -43,6 +45,39 @@ type StressRound struct {
 	// afterwards). Such a connection is excused from oracle (1); a connection that
 	// nobody but the manager can have closed is not.
 	XClose int `json:"xclose,omitempty"`
+	// Net: what the connections are when their holders release them. 0: lazily
+	// connecting clients that nobody connects (IDLE); 1: the dial function only
+	// returns once the connection is READY (a blocking dial; the peer is a gRPC
+	// server of the round, reached over net.Pipe); 2: the dial function calls
+	// Connect() and the transport dialer refuses (TRANSIENT_FAILURE, back-off);
+	// 3: ... and the transport dialer hangs (CONNECTING); 4: each dial another of
+	// these. Closing a connection that has a transport or a pending connection
+	// attempt takes longer and goes through more goroutines than closing an idle
+	// one: the last release racing a new request is a different race then.
+	Net int `json:"net,omitempty"`
+	// Yield > 0: a holder yields the processor up to Yield times between the
+	// looks it takes at the state of the connection it holds.
+	Yield int `json:"yield,omitempty"`
+}
+
+var stressNetNames = []string{"idle", "ready", "transient-failure", "connecting", "mixed"}
+
+// stressStats: what a round has seen (for the labels only).
+type stressStats struct {
+	shared atomic.Int64
+	// connectivity state of a connection when a holder looked at it right before
+	// its release, by state
+	atRelease [5]atomic.Int64
+}
+
+func (s *stressStats) labels() []string {
+	var out []string
+	for st := connectivity.Idle; st <= connectivity.Shutdown; st++ {
+		if s.atRelease[st].Load() > 0 && st != connectivity.Shutdown {
+			out = append(out, "released-in-state-"+st.String())
+		}
+	}
+	return out
 }
 
 func (r *StressRound) addr(a int) string {
@@ -85,20 +120,76 @@ func releaseTogether(done func(), n int, onPanic func(any)) {
 // released, every connection ever handed out is Shutdown (closed at the last
 // release, none leaked); (3) nothing panics.
 func runStressRound(r *StressRound) (overlaps int64, err error) {
+	st, err := runStressRoundStats(r)
+	return st.shared.Load(), err
+}
+
+func runStressRoundStats(r *StressRound) (st *stressStats, err error) {
+	st = &stressStats{}
 	var mu sync.Mutex
 	var all []*grpc.ClientConn
+	var lis *pipeListener
+	if r.Net != 0 {
+		// the peer of READY connections: a gRPC server without services behind an
+		// in-memory listener (no network)
+		lis = &pipeListener{ch: make(chan net.Conn), done: make(chan struct{})}
+		srv := grpc.NewServer()
+		go srv.Serve(lis)
+		defer func() {
+			srv.Stop()
+			lis.Close()
+		}()
+	}
+	var dialNo atomic.Int64
 	dial := func(ctx context.Context, target string, opts ...grpc.DialOption) (*grpc.ClientConn, error) {
-		cc, derr := grpc.NewClient("passthrough:///c16", grpc.WithTransportCredentials(insecure.NewCredentials())) // the spelling is never parsed by gRPC
+		mode := mod(r.Net, 5)
+		if mode == 4 {
+			mode = int(dialNo.Add(1)+r.Seed) & 3
+		}
+		o := []grpc.DialOption{grpc.WithTransportCredentials(insecure.NewCredentials())}
+		if mode != 0 {
+			o = append(o, grpc.WithContextDialer(func(ctx context.Context, _ string) (net.Conn, error) {
+				switch mode {
+				case 1:
+					a, b := net.Pipe()
+					select {
+					case lis.ch <- b:
+						return a, nil
+					case <-lis.done:
+					case <-ctx.Done():
+					}
+					a.Close()
+					b.Close()
+					return nil, errors.New("c16: server of the round gone")
+				case 3:
+					<-ctx.Done()
+					return nil, ctx.Err()
+				}
+				return nil, errors.New("c16: connection refused (scripted)")
+			}))
+		}
+		cc, derr := grpc.NewClient("passthrough:///c16", o...) // the spelling is never parsed by gRPC
 		if derr == nil {
 			mu.Lock()
 			all = append(all, cc)
 			mu.Unlock()
+			if mode != 0 {
+				cc.Connect()
+			}
+			if mode == 1 {
+				for s := cc.GetState(); s != connectivity.Ready; s = cc.GetState() {
+					if !cc.WaitForStateChange(ctx, s) {
+						cc.Close()
+						return nil, ctx.Err()
+					}
+				}
+			}
 		}
 		return cc, derr
 	}
 	m, merr := connection.NewManagerCustom(map[string]connection.Dial{connection.DEFAULT: dial})
 	if merr != nil {
-		return 0, merr
+		return st, merr
 	}
 	defer func() {
 		mu.Lock()
@@ -108,7 +199,7 @@ func runStressRound(r *StressRound) (overlaps int64, err error) {
 		mu.Unlock()
 	}()
 	var firstErr atomic.Value
-	var shared atomic.Int64
+	shared := &st.shared
 	var xclosed sync.Map // connections closed by a holder itself, recorded before the call
 	holders := make([]atomic.Int64, r.Addrs)
 	var wg sync.WaitGroup
@@ -140,7 +231,8 @@ func runStressRound(r *StressRound) (overlaps int64, err error) {
 						xclosed.Store(cc, true)
 						cc.Close()
 					}
-					if st := cc.GetState(); st == connectivity.Shutdown {
+					cs := cc.GetState()
+					if cs == connectivity.Shutdown {
 						if _, byHolder := xclosed.Load(cc); byHolder {
 							break
 						}
@@ -148,6 +240,14 @@ func runStressRound(r *StressRound) (overlaps int64, err error) {
 						holders[a].Add(-1)
 						done()
 						return
+					}
+					if k == 0 && cs >= 0 && int(cs) < len(st.atRelease) {
+						st.atRelease[cs].Add(1)
+					}
+					if r.Yield > 0 && k > 0 {
+						for y := rnd.Intn(r.Yield + 1); y > 0; y-- {
+							runtime.Gosched()
+						}
 					}
 				}
 				holders[a].Add(-1)
@@ -167,16 +267,16 @@ func runStressRound(r *StressRound) (overlaps int64, err error) {
 	close(start)
 	wg.Wait()
 	if e := firstErr.Load(); e != nil {
-		return shared.Load(), e.(error)
+		return st, e.(error)
 	}
 	mu.Lock()
 	defer mu.Unlock()
 	for i, cc := range all {
-		if st := cc.GetState(); st != connectivity.Shutdown {
-			return shared.Load(), fmt.Errorf("every holder has released, but connection #%d is in state %v: not closed at its last release", i, st)
+		if cs := cc.GetState(); cs != connectivity.Shutdown {
+			return st, fmt.Errorf("every holder has released, but connection #%d is in state %v: not closed at its last release", i, cs)
 		}
 	}
-	return shared.Load(), nil
+	return st, nil
 }
 
 // TestC16Stress is the free-running part of C16.
@@ -219,8 +319,22 @@ func TestC16Stress(t *testing.T) {
 			r.Spell, _ = addrTable(names, r.Addrs)
 			lb = append(lb, nameLabels(r.Spell, true)...)
 		}
+		switch i % 5 {
+		case 1, 3:
+			// connections that are READY when they are released (a blocking dial to a
+			// real peer): fewer cycles, every fresh dial is a handshake
+			r.Net, r.Cycles, r.Yield = 1, 80, 1+rnd.Intn(4)
+		case 4:
+			// CONNECTING / TRANSIENT_FAILURE / another state per dial
+			r.Net, r.Cycles, r.Yield = 2+rnd.Intn(3), 150, rnd.Intn(4)
+		}
+		if r.Net != 0 {
+			lb = append(lb, "connections-"+stressNetNames[r.Net])
+		}
 		rec.Current(r)
-		shared, err := runStressRound(r)
+		st, err := runStressRoundStats(r)
+		lb = append(lb, st.labels()...)
+		shared := st.shared.Load()
 		rec.Case(r, shared > 0, lb...)
 		if err != nil {
 			rec.AddViolation(r, "stress", "closed-while-held-or-leaked", "%v", err)
